@@ -101,9 +101,10 @@ Variable expf_o : f32 -> f32.
 (* float v = value*(b-a) + a *)
 Definition lin (value a b : f32) : f32 := add32 (mul32 value (sub32 b a)) a.
 
-(* if(v > mx) v = mx; else if(v < mn) v = mn; *)
+(* if(v > mx) v = mx; else if(!(v >= mn)) v = mn;   (after the NaN repair; the
+   previous "else if(v < mn)" is kept in AutoMapRegress.v) *)
 Definition clamp (v mn mx : f32) : f32 :=
-  if gt32 v mx then mx else if lt32 v mn then mn else v.
+  if gt32 v mx then mx else if negb (ge32 v mn) then mn else v.
 
 Definition sub_output (s : sub) (value : f32) : list msg :=
   if negb (used s) then []
